@@ -14,7 +14,8 @@ FEATURES = {
     "T": [3, 1, 2, 4],
     # option "aux" (filter through an auxiliary function) is handled by make_source but is
     # not part of the E1 alphabet: it is known finding K4 (C17) and only C17/C12 enumerate it
-    "filt": ["sd", "none", "grow", "shrink", "two", "states", "mix"],
+    # "se": the 3-label choice e is the restricted one (e <= 2 - s): states have 3, 2 and 1 passing choices
+    "filt": ["sd", "none", "grow", "shrink", "two", "states", "mix", "se"],
     "e": [0, 1],
     # "cl": second continuous choice b (3 points); "three": third continuous choice q (2 points)
     "cc": ["c", "none", "cl", "three"],
@@ -65,7 +66,7 @@ def normalise(fv):
     fv = dict(fv)
     if fv["h"] == "hg" or fv["filt"] == "states" or fv["h"] in ("two", "three"):
         fv["g"] = 1
-    if fv["cons"] == "disc":
+    if fv["cons"] == "disc" or fv["filt"] == "se":
         fv["e"] = 1
     if fv["filt"] == "shrink" and fv["T"] == 4:
         return None
@@ -225,6 +226,9 @@ def make_source(fv):
         L.append("def sp_filter(s, d, _period):\n    return jnp.logical_and(s >= _period, d >= 0)")
         funcs.append("sp_filter")
         next_s_expr = "jnp.clip(jnp.maximum(s + d, _period + 1), 0, 2)"
+    elif fv["filt"] == "se":
+        L.append("def se_filter(s, e):\n    return e <= 2 - s")
+        funcs.append("se_filter")
     elif fv["filt"] == "mix":
         L.append("def sd_filter(s, d):\n    return jnp.logical_or(d == 0, s < 2)")
         L.append("def sp_filter(s, d, _period):\n    return jnp.logical_and(s <= _period + 1, d <= _period)")
